@@ -32,20 +32,21 @@ structure St where
   wasRange : Bool
 deriving Repr, DecidableEq
 
-/-- one iteration of `for i, r := range chars`; `last` = (i == len(chars)-1) -/
-def step (s : St) (r : Rune) (last : Bool) : St :=
+/-- one iteration of `for i, r := range chars`; `last` = (i == len(chars)-1); `esc` = the rune was written as an escape
+    sequence (an escaped `-` is a character, never the range operator: repair of finding D3) -/
+def step (s : St) (r : Rune) (esc : Bool) (last : Bool) : St :=
   if s.inRange then { s with ranges := s.ranges ++ [r], inRange := false, wasRange := true }
-  else if r = dash && !s.wasRange && !s.chars.isEmpty && !last then
+  else if r = dash && !esc && !s.wasRange && !s.chars.isEmpty && !last then
     { chars := s.chars.dropLast, ranges := s.ranges ++ [s.chars.getLast?.getD 0], inRange := true, wasRange := false }
   else { s with chars := s.chars ++ [r], wasRange := false }
 
-def run (s : St) : List Rune → St
+def run (s : St) : List (Rune × Bool) → St
   | [] => s
-  | [r] => step s r true
-  | r :: r' :: rest => run (step s r false) (r' :: rest)
+  | [r] => step s r.1 r.2 true
+  | r :: r' :: rest => run (step s r.1 r.2 false) (r' :: rest)
 
-/-- the extraction as `parse` performs it -/
-def extract (decoded : List Rune) : List Rune × List Rune :=
+/-- the extraction as `parse` performs it, on the decoded runes with their "escaped" marks -/
+def extract (decoded : List (Rune × Bool)) : List Rune × List Rune :=
   let s := run { chars := [], ranges := [], inRange := false, wasRange := false } decoded
   (s.chars, s.ranges)
 
@@ -118,7 +119,8 @@ def readName : Nat → List Nat → List Rune → List Rune × List Nat
     if r = 125 then (acc, bs') else readName f bs' (acc ++ [r])
 
 structure Dec where
-  chars : List Rune
+  /-- decoded runes, each with the mark "came from an escape sequence" -/
+  chars : List (Rune × Bool)
   classes : List (List Rune)
 deriving Repr, DecidableEq
 
@@ -128,10 +130,10 @@ def decode : Nat → List Nat → Dec → Dec
   | _ + 1, [], d => d
   | f + 1, bs, d =>
     let (rn, bs1) := readRune bs
-    if rn ≠ 92 then decode f bs1 { d with chars := d.chars ++ [rn] }
+    if rn ≠ 92 then decode f bs1 { d with chars := d.chars ++ [(rn, false)] }
     else
       let (e, bs2) := readRune bs1
-      if e = 93 then decode f bs2 { d with chars := d.chars ++ [93] }
+      if e = 93 then decode f bs2 { d with chars := d.chars ++ [(93, true)] }
       else if e = 112 then
         let (n, bs3) := readRune bs2
         if n = 123 then
@@ -144,7 +146,7 @@ def decode : Nat → List Nat → Dec → Dec
         let consumeN := if e = 120 then 2 else if e = 117 then 4 else if e = 85 then 8
                         else if 48 ≤ e && e ≤ 55 then 2 else 0
         let (buf, bs3) := readN consumeN bs2 (encodeRune e)
-        decode f bs3 { d with chars := d.chars ++ [unquote buf] }
+        decode f bs3 { d with chars := d.chars ++ [(unquote buf, true)] }
 
 /-! ### phase 1 and the whole function -/
 
